@@ -717,3 +717,279 @@ Example C07_f15_reload_example :
   option_map words_of (load_dict a_is_lower a_lower UserP
      (adds_to a_is_lower a_lower id_order UserP ([] ++ w_zorgle :: [w_alpha; w_Zorgle; w_beta]) fs_empty)) = Some [w_Zorgle; w_alpha; w_beta].
 Proof. vm_compute. repeat split. Qed.
+
+(* ================================================================================================== *)
+(*  phase 4: the remaining open findings as EXACT classes over the merged dictionary (Model/C07Class.v)  *)
+(* ================================================================================================== *)
+Require Import C07Class C07ClassProofs.
+
+(* F15 (accept side), exactly: after the adds pre ++ w :: post to a dictionary in scope of u (line-safe words; any start, any
+   curated dictionary, any other dictionary) w is REPORTED again iff the curated entry at its id is of another dialect (FC07b)
+   or: the last later add with w's case-folded id is another spelling (f15_keepsb = false: it differs by more than the kind of
+   apostrophe) AND no child has the lower-cased form of w AND no other child has w itself.  (Zorgle then zorgle: Zorgle stays
+   accepted through the lower-cased form; zorgle then Zorgle: zorgle is reported.) *)
+Theorem C07_f15_accept_class : forall (is_lower : N -> bool) (lower : N -> list N) (curated : dict) (iter_order : list word -> list word),
+  (forall l : list word, Permutation (iter_order l) l) ->
+  forall (p : path) (s : fsys) (pre : list word) (w : word) (post : list word) (u : url),
+  fs_ok is_lower lower s -> is_tmp p = false -> Forall line_safe (pre ++ w :: post) ->
+  p = UserP \/ (exists n : list N, file_dict_name u = Some n /\ p = FileP n) ->
+  accepted is_lower lower (children is_lower lower curated (adds_to is_lower lower iter_order p (pre ++ w :: post) s) u) w = false <->
+  dialect_okb is_lower lower curated w = false \/
+  (f15_keepsb is_lower lower w post = false /\
+   m_contains_exact is_lower lower (children is_lower lower curated (adds_to is_lower lower iter_order p (pre ++ w :: post) s) u)
+     (to_lower is_lower lower w) = false /\
+   (forall d : dict, In d (children is_lower lower curated (adds_to is_lower lower iter_order p (pre ++ w :: post) s) u) ->
+      d <> dict_at is_lower lower p (adds_to is_lower lower iter_order p (pre ++ w :: post) s) ->
+      contains_exact_word is_lower lower d w = false)).
+Proof. exact f15_accept_class. Qed.
+Check C07_f15_accept_class : forall (is_lower : N -> bool) (lower : N -> list N) (curated : dict) (iter_order : list word -> list word),
+  (forall l : list word, Permutation (iter_order l) l) ->
+  forall (p : path) (s : fsys) (pre : list word) (w : word) (post : list word) (u : url),
+  fs_ok is_lower lower s -> is_tmp p = false -> Forall line_safe (pre ++ w :: post) ->
+  p = UserP \/ (exists n : list N, file_dict_name u = Some n /\ p = FileP n) ->
+  accepted is_lower lower (children is_lower lower curated (adds_to is_lower lower iter_order p (pre ++ w :: post) s) u) w = false <->
+  dialect_okb is_lower lower curated w = false \/
+  (f15_keepsb is_lower lower w post = false /\
+   m_contains_exact is_lower lower (children is_lower lower curated (adds_to is_lower lower iter_order p (pre ++ w :: post) s) u)
+     (to_lower is_lower lower w) = false /\
+   (forall d : dict, In d (children is_lower lower curated (adds_to is_lower lower iter_order p (pre ++ w :: post) s) u) ->
+      d <> dict_at is_lower lower p (adds_to is_lower lower iter_order p (pre ++ w :: post) s) ->
+      contains_exact_word is_lower lower d w = false)).
+Print Assumptions C07_f15_accept_class.
+
+(* FC07b, exactly: C07_add_sequential WITHOUT its dialect premise — after AddWord sc w and any further history that is free of
+   F15, the check of a document in scope accepts w iff the curated dictionary has no entry of another dialect at w's id
+   (the first child of the merged dictionary wins for the metadata) *)
+Theorem C07_fc07b_class : forall (is_lower : N -> bool) (lower : N -> list N) (curated : dict) (iter_order : list word -> list word),
+  (forall l : list word, Permutation (iter_order l) l) ->
+  forall (s0 : fsys) (h1 : list op) (sc : scope) (w : word) (h2 : list op) (u : url) (p : path),
+  fs_ok is_lower lower s0 ->
+  Forall op_safe (h1 ++ AddWord sc w :: h2) ->
+  target sc = Some p ->
+  (forall (o : op) (sc' : scope) (w' : word),
+     In o h2 -> op_add o = Some (sc', w') -> target sc' = Some p ->
+     word_id is_lower lower w' = word_id is_lower lower w -> normalized w' = normalized w) ->
+  p = UserP \/ (exists n : list N, file_dict_name u = Some n /\ p = FileP n) ->
+  accepted is_lower lower
+    (children is_lower lower curated (run_fs is_lower lower curated iter_order s0 (h1 ++ AddWord sc w :: h2)) u) w =
+  dialect_okb is_lower lower curated w.
+Proof. exact fc07b_class. Qed.
+Check C07_fc07b_class : forall (is_lower : N -> bool) (lower : N -> list N) (curated : dict) (iter_order : list word -> list word),
+  (forall l : list word, Permutation (iter_order l) l) ->
+  forall (s0 : fsys) (h1 : list op) (sc : scope) (w : word) (h2 : list op) (u : url) (p : path),
+  fs_ok is_lower lower s0 ->
+  Forall op_safe (h1 ++ AddWord sc w :: h2) ->
+  target sc = Some p ->
+  (forall (o : op) (sc' : scope) (w' : word),
+     In o h2 -> op_add o = Some (sc', w') -> target sc' = Some p ->
+     word_id is_lower lower w' = word_id is_lower lower w -> normalized w' = normalized w) ->
+  p = UserP \/ (exists n : list N, file_dict_name u = Some n /\ p = FileP n) ->
+  accepted is_lower lower
+    (children is_lower lower curated (run_fs is_lower lower curated iter_order s0 (h1 ++ AddWord sc w :: h2)) u) w =
+  dialect_okb is_lower lower curated w.
+Print Assumptions C07_fc07b_class.
+
+(* what the rule bodies see of a token t (get_word_metadata, get_correct_capitalization_of: the FIRST child with an entry at
+   t's id) differs from what harper-core alone shows them ([curated] ++ idl; idl = the identifier dictionary of a source
+   document, or nothing) iff the curated dictionary has no entry at t's id and the first of the user / file dictionaries that
+   has one holds (x, default metadata) — x one of their words with t's id: t is a case variant of an ADDED word in scope — and
+   the identifier dictionary does not say the same.  This is the harness's class `other-lints-changed:on-added-word`. *)
+Theorem C07_view_class : forall (is_lower : N -> bool) (lower : N -> list N) (curated U F : dict) (idl : list dict) (t : word),
+  dict_wf is_lower lower U -> dict_wf is_lower lower F ->
+  m_get_meta is_lower lower ([curated; U; F] ++ idl) t <> m_get_meta is_lower lower ([curated] ++ idl) t <->
+  lookup (word_id is_lower lower t) curated = None /\
+  (exists x : word, first_uf is_lower lower U F t = Some (x, true) /\ word_id is_lower lower x = word_id is_lower lower t /\
+     (In x (words_of U) \/ In x (words_of F)) /\ m_get_meta is_lower lower idl t <> Some (x, true)).
+Proof. exact view_changes_iff. Qed.
+Check C07_view_class : forall (is_lower : N -> bool) (lower : N -> list N) (curated U F : dict) (idl : list dict) (t : word),
+  dict_wf is_lower lower U -> dict_wf is_lower lower F ->
+  m_get_meta is_lower lower ([curated; U; F] ++ idl) t <> m_get_meta is_lower lower ([curated] ++ idl) t <->
+  lookup (word_id is_lower lower t) curated = None /\
+  (exists x : word, first_uf is_lower lower U F t = Some (x, true) /\ word_id is_lower lower x = word_id is_lower lower t /\
+     (In x (words_of U) \/ In x (words_of F)) /\ m_get_meta is_lower lower idl t <> Some (x, true)).
+Print Assumptions C07_view_class.
+
+(* FC07e, exactly (plain document): the token metadata the rule predicates read changes (None -> Some default) for exactly the
+   tokens that are case variants of an added word in scope and unknown to the curated dictionary *)
+Theorem C07_fc07e_class : forall (is_lower : N -> bool) (lower : N -> list N) (curated U F : dict) (t : word),
+  dict_wf is_lower lower U -> dict_wf is_lower lower F ->
+  m_get_meta is_lower lower [curated; U; F] t <> m_get_meta is_lower lower [curated] t <->
+  lookup (word_id is_lower lower t) curated = None /\
+  (exists x : word, first_uf is_lower lower U F t = Some (x, true) /\ word_id is_lower lower x = word_id is_lower lower t /\
+     (In x (words_of U) \/ In x (words_of F))).
+Proof. exact fc07e_class. Qed.
+Check C07_fc07e_class : forall (is_lower : N -> bool) (lower : N -> list N) (curated U F : dict) (t : word),
+  dict_wf is_lower lower U -> dict_wf is_lower lower F ->
+  m_get_meta is_lower lower [curated; U; F] t <> m_get_meta is_lower lower [curated] t <->
+  lookup (word_id is_lower lower t) curated = None /\
+  (exists x : word, first_uf is_lower lower U F t = Some (x, true) /\ word_id is_lower lower x = word_id is_lower lower t /\
+     (In x (words_of U) \/ In x (words_of F))).
+Print Assumptions C07_fc07e_class.
+
+(* FC07d, exactly: SentenceCapitalization on a sentence-first token t (lower-case first letter), for ANY exemption function iu of
+   the canonical spelling and any proper-noun flags of the curated entries: the lint DISAPPEARS against harper-core alone iff
+   curated has no entry at t's id, the first of user / file with an entry spells it x with iu x (inner upper-case letter) and the
+   identifier dictionary does not already silence it *)
+Theorem C07_fc07d_disappears : forall (is_lower : N -> bool) (lower : N -> list N) (curated : dict) (iu cur_proper : word -> bool)
+    (U F : dict) (idl : list dict) (t : word),
+  dict_wf is_lower lower U -> dict_wf is_lower lower F ->
+  cap_fires is_lower lower iu cur_proper curated idl t = true /\
+  cap_fires is_lower lower iu cur_proper curated ([U; F] ++ idl) t = false <->
+  lookup (word_id is_lower lower t) curated = None /\
+  (exists x : word, first_uf is_lower lower U F t = Some (x, true) /\ word_id is_lower lower x = word_id is_lower lower t /\
+     iu x = true /\ (forall e : entry, m_get_meta is_lower lower idl t = Some e -> iu (fst e) = false)).
+Proof. exact fc07d_disappears. Qed.
+Check C07_fc07d_disappears : forall (is_lower : N -> bool) (lower : N -> list N) (curated : dict) (iu cur_proper : word -> bool)
+    (U F : dict) (idl : list dict) (t : word),
+  dict_wf is_lower lower U -> dict_wf is_lower lower F ->
+  cap_fires is_lower lower iu cur_proper curated idl t = true /\
+  cap_fires is_lower lower iu cur_proper curated ([U; F] ++ idl) t = false <->
+  lookup (word_id is_lower lower t) curated = None /\
+  (exists x : word, first_uf is_lower lower U F t = Some (x, true) /\ word_id is_lower lower x = word_id is_lower lower t /\
+     iu x = true /\ (forall e : entry, m_get_meta is_lower lower idl t = Some e -> iu (fst e) = false)).
+Print Assumptions C07_fc07d_disappears.
+
+(* FC07d-ident, exactly: the lint APPEARS iff curated has no entry, the identifier dictionary spells t's id with an inner
+   upper-case letter (which silenced the lint) and the first of user / file — they come BEFORE the identifiers — spells it
+   without one *)
+Theorem C07_fc07d_appears : forall (is_lower : N -> bool) (lower : N -> list N) (curated : dict) (iu cur_proper : word -> bool)
+    (U F : dict) (idl : list dict) (t : word),
+  dict_wf is_lower lower U -> dict_wf is_lower lower F ->
+  cap_fires is_lower lower iu cur_proper curated idl t = false /\
+  cap_fires is_lower lower iu cur_proper curated ([U; F] ++ idl) t = true <->
+  lookup (word_id is_lower lower t) curated = None /\
+  (exists x : word, first_uf is_lower lower U F t = Some (x, true) /\ word_id is_lower lower x = word_id is_lower lower t /\
+     iu x = false /\ (exists e : entry, m_get_meta is_lower lower idl t = Some e /\ iu (fst e) = true)).
+Proof. exact fc07d_appears. Qed.
+Check C07_fc07d_appears : forall (is_lower : N -> bool) (lower : N -> list N) (curated : dict) (iu cur_proper : word -> bool)
+    (U F : dict) (idl : list dict) (t : word),
+  dict_wf is_lower lower U -> dict_wf is_lower lower F ->
+  cap_fires is_lower lower iu cur_proper curated idl t = false /\
+  cap_fires is_lower lower iu cur_proper curated ([U; F] ++ idl) t = true <->
+  lookup (word_id is_lower lower t) curated = None /\
+  (exists x : word, first_uf is_lower lower U F t = Some (x, true) /\ word_id is_lower lower x = word_id is_lower lower t /\
+     iu x = false /\ (exists e : entry, m_get_meta is_lower lower idl t = Some e /\ iu (fst e) = true)).
+Print Assumptions C07_fc07d_appears.
+
+(* ... so in a plain document (no identifier dictionary) it never appears: the fragment FC07d-ident is confined to source languages *)
+Theorem C07_fc07d_plain_never_appears : forall (is_lower : N -> bool) (lower : N -> list N) (curated : dict) (iu cur_proper : word -> bool)
+    (U F : dict) (t : word),
+  dict_wf is_lower lower U -> dict_wf is_lower lower F ->
+  ~ (cap_fires is_lower lower iu cur_proper curated [] t = false /\ cap_fires is_lower lower iu cur_proper curated [U; F] t = true).
+Proof. exact fc07d_plain_never_appears. Qed.
+Check C07_fc07d_plain_never_appears : forall (is_lower : N -> bool) (lower : N -> list N) (curated : dict) (iu cur_proper : word -> bool)
+    (U F : dict) (t : word),
+  dict_wf is_lower lower U -> dict_wf is_lower lower F ->
+  ~ (cap_fires is_lower lower iu cur_proper curated [] t = false /\ cap_fires is_lower lower iu cur_proper curated [U; F] t = true).
+Print Assumptions C07_fc07d_plain_never_appears.
+
+(* non-vacuity: both orders of zorgle / Zorgle (computed; they agree with C07_f15_accept_class), FC07d in both directions *)
+Example C07_f15_accept_example :
+  f15_keepsb a_is_lower a_lower w_zorgle [w_Zorgle] = false /\
+  accepted a_is_lower a_lower (children a_is_lower a_lower []
+     (adds_to a_is_lower a_lower id_order UserP ([] ++ w_zorgle :: [w_Zorgle]) fs_empty) u_doc) w_zorgle = false /\
+  f15_keepsb a_is_lower a_lower w_Zorgle [w_zorgle] = false /\
+  m_contains_exact a_is_lower a_lower (children a_is_lower a_lower []
+     (adds_to a_is_lower a_lower id_order UserP ([] ++ w_Zorgle :: [w_zorgle]) fs_empty) u_doc)
+     (to_lower a_is_lower a_lower w_Zorgle) = true /\
+  accepted a_is_lower a_lower (children a_is_lower a_lower []
+     (adds_to a_is_lower a_lower id_order UserP ([] ++ w_Zorgle :: [w_zorgle]) fs_empty) u_doc) w_Zorgle = true /\
+  f15_keepsb a_is_lower a_lower w_zorgle [w_Zorgle; w_alpha; w_zorgle] = true.
+Proof. exact f15_accept_example. Qed.
+(* ... and the theorem applied: zorgle, Zorgle — reported because of the second disjunct *)
+Example C07_f15_accept_applies :
+  accepted a_is_lower a_lower (children a_is_lower a_lower []
+     (adds_to a_is_lower a_lower id_order UserP ([] ++ w_zorgle :: [w_Zorgle]) fs_empty) u_doc) w_zorgle = false.
+Proof.
+  apply (C07_f15_accept_class a_is_lower a_lower [] id_order id_order_perm UserP fs_empty [] w_zorgle [w_Zorgle] u_doc).
+  - apply fs_ok_empty.
+  - reflexivity.
+  - repeat constructor.
+  - now left.
+  - right. split; [reflexivity|]. split; [reflexivity|].
+    intros d Hd Hne. cbn [children In] in Hd. destruct Hd as [H|[H|[H|[]]]]; subst d; [reflexivity|now contradiction Hne|reflexivity].
+Qed.
+Example C07_fc07b_example :
+  dialect_okb a_is_lower a_lower cur_colour w_colour = false /\ dialect_okb a_is_lower a_lower cur_colour w_zorgle = true.
+Proof. vm_compute. split; reflexivity. Qed.
+Example C07_fc07d_example :
+  let U := extend_words a_is_lower a_lower [] [w_ZORGLE] in
+  let I := extend_words a_is_lower a_lower [] [w_ZORGLE] in
+  let U2 := extend_words a_is_lower a_lower [] [w_zorgle] in
+  cap_fires a_is_lower a_lower iu_ascii (fun _ => false) [] [] w_zorgle = true /\
+  cap_fires a_is_lower a_lower iu_ascii (fun _ => false) [] ([U; []] ++ []) w_zorgle = false /\
+  cap_fires a_is_lower a_lower iu_ascii (fun _ => false) [] [I] w_zorgle = false /\
+  cap_fires a_is_lower a_lower iu_ascii (fun _ => false) [] ([U2; []] ++ [I]) w_zorgle = true.
+Proof. exact fc07d_example. Qed.
+
+(* ================================================================================================== *)
+(*  phase 4: the language of an open document (Model/C07Lang.v) — replaces the hypothesis `well_kinded`  *)
+(* ================================================================================================== *)
+Require Import C07Lang C07LangProofs.
+
+(* the server keeps, per open document, the dictionaries of C07Ident AND the language id it was created with (or_insert_with:
+   a later didOpen with another language id does not change it; didChange / didSave / the add commands' update carry none; an
+   update of a url without state, or in a language without a parser, leaves no document; didClose, restart and crash drop the
+   state).  For EVERY history of adds, crashed adds, restarts, didOpen (any language id), didChange, hidden updates and didClose:
+   outputs, disk and stored languages are those of the reference lref, which keeps only the language per document and decides
+   every check with the dictionary files as they are now (+ the identifiers of the text, read in the stored language).
+   Only premise: whether a language has identifiers is a function of the language id (lop_ok; monitored). *)
+Theorem C07_lang_transparent : forall (is_lower : N -> bool) (lower : N -> list N) (curated : dict) (iter_order : list word -> list word),
+  (forall l : list word, Permutation (iter_order l) l) ->
+  forall (src_lang : lang -> bool) (h : list lop) (s : fsys),
+  Forall (lop_ok src_lang) h ->
+  snd (lrun is_lower lower curated iter_order (s, [], []) h) = snd (lref is_lower lower curated iter_order (s, []) h) /\
+  fst (fst (fst (lrun is_lower lower curated iter_order (s, [], []) h))) = fst (fst (lref is_lower lower curated iter_order (s, []) h)) /\
+  snd (fst (lrun is_lower lower curated iter_order (s, [], []) h)) = snd (fst (lref is_lower lower curated iter_order (s, []) h)).
+Proof. exact lang_transparent. Qed.
+Check C07_lang_transparent : forall (is_lower : N -> bool) (lower : N -> list N) (curated : dict) (iter_order : list word -> list word),
+  (forall l : list word, Permutation (iter_order l) l) ->
+  forall (src_lang : lang -> bool) (h : list lop) (s : fsys),
+  Forall (lop_ok src_lang) h ->
+  snd (lrun is_lower lower curated iter_order (s, [], []) h) = snd (lref is_lower lower curated iter_order (s, []) h) /\
+  fst (fst (fst (lrun is_lower lower curated iter_order (s, [], []) h))) = fst (fst (lref is_lower lower curated iter_order (s, []) h)) /\
+  snd (fst (lrun is_lower lower curated iter_order (s, [], []) h)) = snd (fst (lref is_lower lower curated iter_order (s, []) h)).
+Print Assumptions C07_lang_transparent.
+
+(* ... hence: after ANY history h a didOpen of u with language id l is answered with the dictionary files as the add commands of h
+   left them (run_fs over lbase h: C07_add_sequential applies), read in the language the document state of u ALREADY has — l only
+   counts when u has no state; a language without a parser yields no diagnostics *)
+Theorem C07_lang_check : forall (is_lower : N -> bool) (lower : N -> list N) (curated : dict) (iter_order : list word -> list word),
+  (forall l : list word, Permutation (iter_order l) l) ->
+  forall (src_lang : lang -> bool) (h : list lop) (s : fsys) (u : url) (l : lang) (a : alts),
+  Forall (lop_ok src_lang) h -> alts_ok src_lang a ->
+  let disk := run_fs is_lower lower curated iter_order s (lbase h) in
+  let m := snd (fst (lref is_lower lower curated iter_order (s, []) h)) in
+  snd (lrun is_lower lower curated iter_order (s, [], []) (h ++ [LOpen u l a])) =
+  snd (lref is_lower lower curated iter_order (s, []) h) ++
+  [match alt_of a (match aget u m with Some l0 => l0 | None => l end) with
+   | APlain toks => flags is_lower lower (children is_lower lower curated disk u) toks
+   | ASrc ids toks => flags is_lower lower (children is_lower lower curated disk u ++ [ident_dict is_lower lower ids]) toks
+   | ANone => []
+   end].
+Proof. exact lang_check. Qed.
+Check C07_lang_check : forall (is_lower : N -> bool) (lower : N -> list N) (curated : dict) (iter_order : list word -> list word),
+  (forall l : list word, Permutation (iter_order l) l) ->
+  forall (src_lang : lang -> bool) (h : list lop) (s : fsys) (u : url) (l : lang) (a : alts),
+  Forall (lop_ok src_lang) h -> alts_ok src_lang a ->
+  let disk := run_fs is_lower lower curated iter_order s (lbase h) in
+  let m := snd (fst (lref is_lower lower curated iter_order (s, []) h)) in
+  snd (lrun is_lower lower curated iter_order (s, [], []) (h ++ [LOpen u l a])) =
+  snd (lref is_lower lower curated iter_order (s, []) h) ++
+  [match alt_of a (match aget u m with Some l0 => l0 | None => l end) with
+   | APlain toks => flags is_lower lower (children is_lower lower curated disk u) toks
+   | ASrc ids toks => flags is_lower lower (children is_lower lower curated disk u ++ [ident_dict is_lower lower ids]) toks
+   | ANone => []
+   end].
+Print Assumptions C07_lang_check.
+
+(* non-vacuity / tie example: /m.rs opened as rust, re-opened as plaintext (still read as rust), zorgle added, closed, changed while
+   closed (no document), opened as plaintext, re-opened in a language without parser (ignored), restart, opened in that language (no
+   document), opened as rust: with per-document state and by the reference *)
+Example C07_lang_example :
+  Forall (lop_ok src_ex) h_lang /\
+  snd (lrun a_is_lower a_lower [] id_order (fs_empty, [], []) h_lang) =
+    [[false; true]; [false; true]; []; []; [false; false]; []; []; [true; false; true]; [true; false; true]; []; []; [false; false]] /\
+  snd (lref a_is_lower a_lower [] id_order (fs_empty, []) h_lang) =
+    [[false; true]; [false; true]; []; []; [false; false]; []; []; [true; false; true]; [true; false; true]; []; []; [false; false]].
+Proof. exact lang_example. Qed.
